@@ -32,6 +32,10 @@ def du1_constants(ctx):
     for name, want in spec.DURATION_CONSTS.items():
         c = ctx.facts.consts.get('formatter::' + name)
         if c is None:
+            # moved next to the type it belongs to (and re-exported): the one constant of that name
+            cands = [v_ for k_, v_ in ctx.facts.consts.items() if k_.rsplit('::', 1)[-1] == name]
+            c = cands[0] if len(cands) == 1 else None
+        if c is None:
             ctx.finding('DU1', '%s/missing' % name, 'constant formatter::%s not found' % name)
         elif c['val'] != want:
             ctx.finding('DU1', '%s/value' % name, 'formatter::%s = %s s; the statement says %s s' % (name, c['val'], want), site=c['loc'])
